@@ -708,8 +708,9 @@ class NDNApp:
         name = enc.Name.normalize(name)
 
         def decorator(func: IntHandler):
-            self._autoreg_routes.append(name)
+            # A declaration that is refused (the prefix is taken) must not leave a second registration behind
             self.attach_handler(name, func, validator)
+            self._autoreg_routes.append(name)
             if self.face.running:
                 aio.create_task(self.register(name))
             return func
